@@ -296,6 +296,7 @@ fn op_kind(o: &Op) -> u8 {
         Op::Timer { k } => 116 + k.ix() as u8,
         Op::SetPing { .. } => 120,
         Op::SetPingresp { ms } => 162 + (*ms != 0) as u8,
+        Op::SetAuto { which, on } => 164 + 2 * which + *on as u8,
         Op::Advance { .. } => 121,
         Op::Close { partial } => 122 + (*partial != 0) as u8,
         Op::Crash => 124,
